@@ -27,7 +27,7 @@ META = {
 
 MODEL = ["theories/Dag/DagCorr.vo"]
 PROOFS = ["theories/Props/C19.vo"]
-STATEMENT_FILES = ["theories/Props/C19.v"]
+STATEMENT_FILES = ["theories/Props/C19.v", "theories/Dag/DagGen.v"]
 
 
 # ----------------------------------------------------------------- the graph of a case
@@ -364,9 +364,9 @@ def run(ck):
 
     return ck.finish(
         level="proof",
-        checker_cmd="bin/check C19 (make -C coq theories/Props/C19.vo -> Print Assumptions audit -> harness c19 "
+        checker_cmd="bin/check C19 (gen -> make -C coq theories/Props/C19.vo -> Print Assumptions audit -> harness c19 "
                     "vs vm_compute of Dag/DagCorr.v + independent oracles)",
-        trusted=["Coq 8.16.1 kernel + vm_compute", "harness/cmd/c19 + checks/c19.py (name ranks, comparison, oracles)",
+        trusted=["Coq 8.16.1 kernel + vm_compute", "translator gen/dags.go (sort keys, reserved slots, snap rules, function texts)", "harness/cmd/c19 + checks/c19.py (name ranks, comparison, oracles)",
                  "modelled not verified: Go map semantics and iteration order (permutation oracle), sort.Sort"],
         rule="fixed corpus; every graph on <= 3 nodes with lists drawn from the nodes plus one non-node name; all "
              "65 536 graphs on 4 nodes; seeded (splitmix64) sparse/dense/layered DAGs, DAGs with back edges, rings "
